@@ -38,6 +38,9 @@ struct ScheduleSpec {
     seed: u64,
     #[serde(default)]
     choices: Vec<u32>,
+    /// the same schedule as deviations from the default policy (for minimisation)
+    #[serde(default)]
+    deviations: Vec<(u32, u32)>,
 }
 
 #[derive(Serialize, Deserialize, Clone, Debug)]
@@ -92,7 +95,7 @@ fn write_replay_and_exit(
     mode: Mode,
     policy: &Policy,
     sched_seed: u64,
-    choices: Vec<u32>,
+    (choices, deviations): (Vec<u32>, Vec<(u32, u32)>),
     run_index: u64,
     sched_index: u64,
     obs: Observed,
@@ -115,6 +118,7 @@ fn write_replay_and_exit(
             policy: policy.clone(),
             seed: sched_seed,
             choices,
+            deviations,
         },
         observed: Some(obs.clone()),
         minimised: false,
@@ -144,7 +148,7 @@ fn violation(res_ctx: (&Workload, Mode, &Policy, u64, &ExecResult, u64, u64), cl
         mode,
         policy,
         seed,
-        r.choices.clone(),
+        (r.choices.clone(), r.devs.clone()),
         i,
         s,
         Observed {
@@ -225,7 +229,11 @@ fn install_hook() {
         } else {
             (site, detail)
         };
-        let choices = inf.sched.try_borrow().map(|s| s.choices.clone()).unwrap_or_default();
+        let choices = inf
+            .sched
+            .try_borrow()
+            .map(|s| (s.choices.clone(), s.devs.clone()))
+            .unwrap_or_default();
         write_replay_and_exit(
             &inf.w,
             inf.mode,
@@ -264,6 +272,7 @@ struct Cov {
     blocking_recvs: Vec<u64>,
     hashq_full_runs: u64,
     policies: BTreeMap<String, u64>,
+    ooo_by_policy: BTreeMap<String, u64>,
     faults_fired: BTreeMap<String, u64>,
     fault_free_runs: u64,
     order_divergent: u64,
@@ -289,6 +298,8 @@ fn policy_name(p: &Policy) -> &'static str {
         Policy::Pct { .. } => "pct",
         Policy::Starve { .. } => "starve",
         Policy::RoundRobin => "round_robin",
+        Policy::Stall { .. } => "stall",
+        Policy::Ahead { .. } => "ahead",
         Policy::Deviations { .. } => "deviations",
         Policy::Replay => "replay",
     }
@@ -324,6 +335,7 @@ impl Cov {
         self.completion_orders.insert(mix(oh, done.len() as u64));
         if ooo {
             self.out_of_order_runs += 1;
+            *self.ooo_by_policy.entry(policy_name(policy).into()).or_default() += 1;
         }
         if blocking {
             self.blocking_runs += 1;
@@ -548,7 +560,7 @@ fn run_workload(plan: &Plan, w: &Workload, run_index: u64, seed: u64, cov: &mut 
                 cov.skipped_single_err += 1;
             }
         }
-        "C06" | "C17P" => {}
+        "C06" | "C06N" | "C17P" => {}
         other => harness_error(&format!("unknown property {other}")),
     }
 
@@ -582,7 +594,7 @@ fn run_workload(plan: &Plan, w: &Workload, run_index: u64, seed: u64, cov: &mut 
                     violation(pctx, "streaminfo_mismatch", format!("multi-thread: {d}"));
                 }
             }
-            "C06" | "C17P" => {
+            "C06" | "C06N" | "C17P" => {
                 // (d) no thread started by the call is alive when it returns
                 if par.outcome.live_at_return != 0 {
                     let mut st: Vec<String> = par.outcome.live_states.iter().map(|(_, s)| format!("{s:?}")).collect();
@@ -599,7 +611,7 @@ fn run_workload(plan: &Plan, w: &Workload, run_index: u64, seed: u64, cov: &mut 
                             par.outcome.live_states
                         ),
                     };
-                    write_replay_and_exit(w, Mode::Par, &policy, sseed, par.choices.clone(), run_index, s, obs);
+                    write_replay_and_exit(w, Mode::Par, &policy, sseed, (par.choices.clone(), par.devs.clone()), run_index, s, obs);
                 }
                 if par.record.spawned != par.record.finished {
                     violation(pctx, "thread_leak_at_end", format!("spawned {} finished {}", par.record.spawned, par.record.finished));
@@ -664,6 +676,7 @@ fn plan_for(prop: &str, tier: Tier, scheds: u64) -> Plan {
         "C05" => Purpose::Equivalence,
         "C03" | "C14P" => Purpose::StreamInfo,
         "C06" => Purpose::Faults,
+        "C06N" => Purpose::Equivalence,
         "C17P" => Purpose::Byzantine,
         other => harness_error(&format!("unknown property {other}")),
     };
@@ -752,7 +765,7 @@ fn cmd_run(args: &[String]) {
         "transitions": cov.transitions.iter().map(|(a, b)| mix(*a, *b)).collect::<Vec<_>>(),
         "chan_max_len": cov.chan_max_len, "blocking_sends": cov.blocking_sends, "blocking_recvs": cov.blocking_recvs,
         "hashq_full_runs": cov.hashq_full_runs, "max_hash_lag": cov.max_hash_lag,
-        "policies": cov.policies, "faults_fired": cov.faults_fired, "fault_free_runs": cov.fault_free_runs,
+        "policies": cov.policies, "ooo_by_policy": cov.ooo_by_policy, "faults_fired": cov.faults_fired, "fault_free_runs": cov.fault_free_runs,
         "order_divergent": cov.order_divergent, "ok_results": cov.ok_results, "err_results": cov.err_results,
         "max_tasks": cov.max_tasks, "workers_hist": cov.workers_hist, "delivery_hist": cov.delivery_hist,
         "bits_hist": cov.bits_hist, "skipped_single_err": cov.skipped_single_err,
